@@ -655,7 +655,7 @@ def rule_sample_count(eng, rep, A, rule="C02-6.sample-count"):
                     rep.bad(rule, vfg.describe(leaf), "sample-count-origin|%s" % blame_short(vfg, leaf),
                             "number of samples originates from `%s`, not from max(nsamples(delta, rho, iter, nruns), 1)" % (short(lnode) if lnode is not None else str(leaf)),
                             path=w.path(leaf))
-    rep.require_count(rule, "max(nsamples(..),1) origins", n_max, 20)
+    rep.require_count(rule, "max(nsamples(..),1) origins", n_max, 3)      # x0, the main loop, a helper (today 27 copies)
 
 
 def run(eng, rep):
